@@ -65,7 +65,8 @@ CHECKS = {
         "DESIGN.md §4 C02",
         "Every element of the grammar (tasks with 1..3 clients; parallels of 1..3 sub-tasks, caps None/1..4, completed-by none/any/each) "
         "is allocated alone and next to a task of 1..6 clients (an element's allocation depends on the rest of the schedule only through "
-        "the maximum client count), plus all schedules of length <= 3 over a reduced alphabet; every list of 1..3 (4) hosts over the core "
+        "the maximum client count), plus all schedules of length <= 3 over a reduced alphabet; every parallel element with every subset of its sub-tasks (and a second parallel "
+        "element) excluded through the real task filter; every list of 1..3 (4) hosts over the core "
         "alphabet x 1..17 (40) clients. Reference: rectangular matrix, shared aligned join points, client indices 0..n-1 exactly once per "
         "task, one progress entry per step, Driver.update_progress_message walks every step; workers: no loss/duplication, contiguous, "
         "<= cores workers, loads differ by <= 1. Exhaustive within the grammar.",
@@ -103,7 +104,9 @@ CHECKS = {
         "streams at the percentile-set boundaries (9..10000 samples) for two tasks sharing an operation: percentile set by normal count, "
         "percentile values = linear interpolation (exact rationals), monotone, within [min,max], p100=max, p50=median, mean/min/max of raw "
         "normal values, error rate = failed/all normal, results identical with warm-up records removed, race.json round trip reproduces "
-        "as_flat_list and per-task metrics.",
+        "as_flat_list and per-task metrics. Cluster-level layer: 30 index-stats / GC / segment / size / ingest metrics (per-shard values "
+        "included) present all / none / each alone / all but each x 1..3 values: computed value = documented aggregation, every attribute "
+        "identical after the race.json round trip.",
         "Trusted: the reference statistics (40 lines). Only the in-memory store; the Elasticsearch-backed store is out of reach offline.",
     ),
     "C19": (
@@ -140,8 +143,10 @@ CHECKS = {
         "4 invocations per client through AsyncIoAdapter.run / ScheduleHandle / AsyncExecutor / execute_single / registered runner / Rally "
         "async client: one sample per invocation with its client, task, sample type and issue time; service time = first send..last "
         "receive; processing >= service >= 0 and exact; throttled: not issued before the scheduled time, latency = response - scheduled "
-        "time; unthrottled: latency = service time.",
-        "Trusted: mc/vloop.py, mc/fakees.py, mc/loadgen.py (harness, 200 lines). Exact equalities use binary-fraction times.",
+        "time, the scheduled time itself = k * clients * weight / target (independent reference); unthrottled: latency = service time. "
+        "Service times include one that ends less than a millisecond before the next slot; a completed-by family runs an unthrottled "
+        "completing task next to a throttled sibling on the same worker.",
+        "Trusted: mc/vloop.py, mc/fakees.py, mc/loadgen.py (harness, 200 lines). Thread interleavings of the sample queue are explored in C07. Exact equalities use binary-fraction times.",
     ),
     "C05": (
         "exploration",
@@ -151,7 +156,9 @@ CHECKS = {
         "Iteration-based (warm-up x measurement iterations), time-based (warm-up x time period, ramp-up), source-bounded and "
         "self-completing-runner tasks x clients {1,2,4} x {unthrottled, deterministic, seeded poisson} x targets (ops/s, docs/s, interval, "
         "unit mismatch) x 4 service-time words: exact request counts and warm-up flags, period end (one straddler per client), progress "
-        "monotone in [0,1] ending at 1, sample types never regress, scheduled times monotone and weight*C/T apart, ramp-up delay.",
+        "monotone in [0,1] ending at 1, sample types never regress, scheduled times monotone and weight*C/T apart, ramp-up delay; explicit "
+        "iterations on finite parameter sources below/at/above the iteration count; ramp-up inside parallel elements whose allocations "
+        "come from the real Allocator.",
         "Trusted: as C04. Poisson pacing compared with the same seeded source (single client) or for monotonicity.",
     ),
     "C01": (
@@ -159,14 +166,15 @@ CHECKS = {
         "stateless deviation-bounded exploration (CHESS-style iterative bounding) of complete simulated races: real actors, driver, "
         "allocator, workers, executors and client on a simulated Thespian transport, virtual clock and baton-scheduled executor threads",
         "DESIGN.md §4 C01",
-        "11 schedule shapes (sequential, parallel, completed-by task/any, over-committed incl. three unequal rows on one worker, time-based, "
-        "idle clients, completing task on a shared worker, two consecutive completed-by steps) x 4 host/core layouts x service-time profiles x clock offsets; every order of message deliveries (FIFO per pair), "
+        "12 schedule shapes (sequential, parallel, completed-by task/any, over-committed incl. three unequal rows on one worker, time-based, "
+        "idle clients, completing task on a shared worker, two consecutive completed-by steps, a completed-by task with two clients) x 4 host/core layouts x service-time profiles x clock offsets; every order of message deliveries (FIFO per pair), "
         "due wake-ups, executor-thread steps, time advances (message delays) and handler preemptions within 1 deviation of the default "
         "schedule (2 on completed-by shapes; thorough: 2 everywhere it matters). Oracle on the request log and race-control messages only: "
         "no request of element k+1 before every request of element k completed; exact per-client request counts; exactly one completion "
         "after the last response, one TaskFinished per step, no failure; completed-by ends siblings only after the named task; liveness.",
-        "Trusted: mc/actorsim.py (transport semantics, 350 lines), mc/vloop.py, mc/fakees.py, mc/racesim.py (stubs for config/track loading). "
-        "Real TCP transport and OS-level preemption between sync points are outside the model.",
+        "Trusted: mc/actorsim.py (transport semantics, 400 lines; real Thespian traces are checked to be behaviours of it, DESIGN.md §10.8), "
+        "mc/vloop.py, mc/fakees.py, mc/racesim.py (stubs for config/track loading). At bound 2 every line of a worker handler is a preemption "
+        "point for a due executor step (§10.9). 1 recorded finding (co-located siblings of a multi-client completed-by task).",
     ),
     "C07": (
         "model_checking",
